@@ -6,7 +6,7 @@ ID="$1"; shift
 cd /repo || exit 9
 git diff --quiet || { echo "/repo has uncommitted changes: refusing"; exit 9; }
 git apply "$PATCH" || { echo "patch does not apply"; exit 9; }
-cd /verif && ./check "$ID" "$@" > /tmp/seedcheck.out 2>&1
+cd /verif && VERIF_EVIDENCE_DIR=/tmp/seedcheck_evidence ./check "$ID" "$@" > /tmp/seedcheck.out 2>&1
 RC=$?
 cd /repo && git checkout -- . 
 grep -E "VIOLATION|UNCONFIRMED|HARNESS|KNOWN|tier=" /tmp/seedcheck.out | cut -c1-400 | head -8
